@@ -101,6 +101,9 @@ class C14(Prop):
                     # the block it applies to at the start of the next
                     parts[k] += '\n\n' + rng.choice(['.' + gen.attributes_line(rng)[1:].lstrip(), '.' + ' '.join(rng.sample(gen.OPTIONS, rng.randint(1, 3))),
                                                      '.note ' + rng.choice(gen.OPTIONS)])
+                    if m == 0 and rng.random() < 0.3:
+                        # ... and the safe mode switched on by an option element after it
+                        parts[k] += '\n\n' + rng.choice([".safeMode = '1'", ".safeMode = '5'", ".safeMode = '9'", ".htmlReplacement = 'X'"])
                     w = plain(rng)
                     parts[k + 1] = rng.choice(['..\n%s *b* & {m1}\n..', '""\n%s *b*\n""', '``\n- one *%s*\n- two\n``', '%s *b* & {m1}',
                                                '  indented *%s*', '> %s *b*', '# %s *b*', '- %s *b*\n\n', '<div>%s</div>',
@@ -318,6 +321,14 @@ class C15(Prop):
 
 
 # ---------------------------------------------------------------------------------------------
+def ptext(rng):
+    """words, sometimes with the characters that message formatting treats specially"""
+    w = plain(rng)
+    if rng.random() < 0.25:
+        w += ' ' + rng.choice(['50%', '100%%', '%s', '%d items', '%(name)s', '%'])
+    return w
+
+
 @register
 class C19(Prop):
     id = 'C19'
@@ -339,7 +350,7 @@ class C19(Prop):
             k = rng.randrange(9)
             kinds.add(k)
             if k == 0:
-                parts.append(plain(rng) + ' {m1} ' + plain(rng))
+                parts.append(ptext(rng) + ' {m1} ' + ptext(rng))
             elif k == 1:
                 parts.append('{m2|a|b}')
             elif k == 2:
@@ -350,11 +361,11 @@ class C19(Prop):
                 parts.append(rng.choice([".safeMode = '0'", ".htmlReplacement = 'x'"]))
             elif k == 5:
                 sp = lambda: rng.choice([' ', ' ', '  ', '   '])    # noqa: E731  (options are separated by runs of blanks)
-                parts.append(rng.choice([".+macros%s-spans%s\n" % (sp(), rng.choice(['', ' ', '  '])) + plain(rng),
-                                         ".cls #i%d\n%s" % (rng.randint(1, 9999), plain(rng)),
-                                         "{--} = ''", "{m1?} = 'kept'", ".-specials%s-container\n..\n%s\n.." % (sp(), plain(rng)),
-                                         ".cls%s+macros%s-spans%s+specials\n%s" % (sp(), sp(), sp(), plain(rng)),
-                                         ".%s-macros%s+spans\n%s" % (rng.choice(['', ' ']), sp(), plain(rng))]))
+                parts.append(rng.choice([".+macros%s-spans%s\n" % (sp(), rng.choice(['', ' ', '  '])) + ptext(rng),
+                                         ".cls #i%d\n%s" % (rng.randint(1, 9999), ptext(rng)),
+                                         "{--} = ''", "{m1?} = 'kept'", ".-specials%s-container\n..\n%s\n.." % (sp(), ptext(rng)),
+                                         ".cls%s+macros%s-spans%s+specials\n%s" % (sp(), sp(), sp(), ptext(rng)),
+                                         ".%s-macros%s+spans\n%s" % (rng.choice(['', ' ']), sp(), ptext(rng))]))
             elif k == 6:
                 sp = lambda: rng.choice([' ', ' ', '  ', '   '])    # noqa: E731
                 parts.append(rng.choice(["|code| = '<pre>|</pre>%s+macros'" % sp(), "/teh/ = 'the'", "~ = '<u>|</u>'",
@@ -363,7 +374,7 @@ class C19(Prop):
             elif k == 7:
                 parts.append('- item {m1}\n- item')
             else:
-                parts.append('# ' + plain(rng) + rng.choice(['', '', ' id="a%d"' % rng.randint(1, 99), ' class="k" style="s"']))
+                parts.append('# ' + ptext(rng) + rng.choice(['', '', ' id="a%d"' % rng.randint(1, 99), ' class="k" style="s"']))
         return parts, kinds
 
     def cases(self, ctx):
@@ -377,13 +388,13 @@ class C19(Prop):
             if rng.random() < 0.15:
                 # an undefined macro wherever macros are expanded, in the safe modes that honour macro definitions (bit 8) under
                 # each HTML policy: what the policy does to an element afterwards does not excuse the diagnostic
-                w = plain(rng)
-                host = rng.choice(['%s {m3} %s' % (w, plain(rng)), '# %s {m3}' % w, '- %s {m3}\n- x' % w, '..\n%s {m3}\n..' % w, '<http://a.com/|{m3}>',
+                w = ptext(rng)
+                host = rng.choice(['%s {m3} %s' % (w, ptext(rng)), '# %s {m3}' % w, '- %s {m3}\n- x' % w, '..\n%s {m3}\n..' % w, '<http://a.com/|{m3}>',
                                    'term:: %s {m3}' % w, '""\n%s {m3}\n""' % w, '{m3}', '*{m3}*', '`{m3}`', '{m3} ' + w, "{m1?} = 'kept {m3}'",
                                    "{m4} = 'two\nlines {m3}'", '<div title="{m3}">', '<div>{m3}</div>', '<p>x {m3}</p>\n', '- item\n<div>{m3}</div>',
                                    '..\n<section>{m3}</section>\n..', '<!-- {m3} -->', '%s <b>{m3}</b> %s' % (w, w), '.cls\n<div>{m3} %s</div>' % w,
                                    '<image:{m3}>', '<<#{m3}>>'])
-                src = "{m1} = 'value one'\n\n%s {m1}\n\n%s\n\n%s" % (plain(rng), host, plain(rng))
+                src = "{m1} = 'value one'\n\n%s {m1}\n\n%s\n\n%s" % (ptext(rng), host, ptext(rng))
                 yield {'src': src, 'safeMode': rng.choice([8, 9, 10, 11]), 'fault': 'undefined-macro', 'expect': 'undefined macro: {m3}', 'nkinds': 3}
                 continue
             f = rng.choice(self.FAULTS)
@@ -398,8 +409,8 @@ class C19(Prop):
                 expect = 'unterminated %s block' % name
             elif f == 'undefined-macro':
                 # the misspelt invocation in every position where macros are expanded
-                w = plain(rng)
-                host = rng.choice(['%s {m3} %s' % (w, plain(rng)), '.cls [title="{m3}"]\n' + w, '."color: {m3}"\n' + w, '# %s {m3}' % w,
+                w = ptext(rng)
+                host = rng.choice(['%s {m3} %s' % (w, ptext(rng)), '.cls [title="{m3}"]\n' + w, '."color: {m3}"\n' + w, '# %s {m3}' % w,
                                    '- %s {m3}\n- x' % w, '..\n%s {m3}\n..' % w, '<http://a.com/|{m3}>', '.+macros\n```\ncode {m3}\n```',
                                    'term:: %s {m3}' % w, '""\n%s {m3}\n""' % w, '<div title="{m3}">', '{m3}',
                                    '- item\n.box [title="{m3}"]\n..\ninner\n..', '*{m3}*', '[{m3}](http://x.y/)', '`{m3}`',
@@ -422,7 +433,7 @@ class C19(Prop):
                 expect = 'illegal replacement regular expression'
             elif f == 'block-option':
                 bad = rng.choice(['+bogus', '+skipx', '-macross', '+Skip', '-span'])
-                parts.insert(rng.randrange(2, len(parts) + 1), '.%s%s\n%s' % (rng.choice(['', '+macros ']), bad, plain(rng)))
+                parts.insert(rng.randrange(2, len(parts) + 1), '.%s%s\n%s' % (rng.choice(['', '+macros ']), bad, ptext(rng)))
                 expect = 'illegal block option: ' + bad
             else:
                 parts.insert(rng.randrange(2, len(parts) + 1), "|code| = 'junk'")
